@@ -3,10 +3,12 @@ package main
 import (
 	"bytes"
 	"context"
+	"crypto/x509"
 	"fmt"
 	"io"
 	"net"
 	"net/http"
+	"net/http/httptest"
 	"os"
 	"path/filepath"
 	"sync"
@@ -79,6 +81,61 @@ func (t *epRT) RoundTrip(req *http.Request) (*http.Response, error) {
 		atomic.AddInt64(t.bad, 1)
 	}
 	return t.inner.RoundTrip(req)
+}
+
+
+// dialSoak: see the call site. Returns "" or what went wrong functionally (the race detector speaks for itself).
+func dialSoak(c *Ctx) string {
+	ln, err := net.Listen("tcp", "0.0.0.0:0")
+	if err != nil {
+		return ""
+	}
+	ts := httptest.NewUnstartedServer(http.HandlerFunc(func(w http.ResponseWriter, r *http.Request) {
+		body, _ := io.ReadAll(r.Body)
+		rep := []byte{0, 0, 0x81, 0x80, 0, 0, 0, 0, 0, 0, 0, 0}
+		if len(body) >= 2 {
+			rep[0], rep[1] = body[0], body[1]
+		}
+		_, _ = w.Write(rep)
+	}))
+	ts.Listener.Close()
+	ts.Listener = ln
+	ts.EnableHTTP2 = true
+	ts.StartTLS()
+	defer ts.Close()
+	_, port, _ := net.SplitHostPort(ln.Addr().String())
+	roots := x509.NewCertPool()
+	roots.AddCert(ts.Certificate())
+	ep := &endpoint.DOHEndpoint{Hostname: "example.com"}
+	ep.VerifUseTransportAddrs([]string{"127.0.0.1:" + port, "127.0.0.2:" + port}, roots)
+	var bad int64
+	rounds := 6
+	if c.tier == "thorough" {
+		rounds = 40
+	}
+	for k := 0; k < rounds; k++ {
+		var wg sync.WaitGroup
+		for j := 0; j < 8; j++ {
+			wg.Add(1)
+			go func(j int) {
+				defer wg.Done()
+				ctx, cancel := context.WithTimeout(context.Background(), 3*time.Second)
+				defer cancel()
+				buf := make([]byte, 512)
+				q := []byte{byte(k), byte(j), 1, 0, 0, 1, 0, 0, 0, 0, 0, 0, 1, 'd', 0, 0, 1, 0, 1}
+				n, err := ep.Exchange(ctx, q, buf)
+				if err != nil || n < 12 || buf[0] != byte(k) || buf[1] != byte(j) {
+					atomic.AddInt64(&bad, 1)
+				}
+			}(j)
+		}
+		wg.Wait()
+		ep.VerifCloseIdle()
+	}
+	if bad > 0 {
+		return fmt.Sprintf("dial soak: %d of %d exchanges over an endpoint with two bootstrap addresses failed or got another exchange's answer", bad, rounds*8)
+	}
+	return ""
 }
 
 func writeFileAtomic(path, content string) {
@@ -258,10 +315,16 @@ func init() {
 		case <-done:
 		case <-time.After(3 * time.Second):
 		}
+		// the dial layer: an endpoint with TWO bootstrap addresses on its real HTTP/2 transport (the package's parallel
+		// dialer), bursts of concurrent exchanges on a cold transport, idle connections dropped between bursts
+		dialErr := dialSoak(c)
 		c.notes["race_soak"] = map[string]int64{"queries_sent": sent, "answered": answered, "duration_ms": int64(dur / time.Millisecond)}
 		out := "ok"
 		if answered*10 < sent*9 {
 			out = fmt.Sprintf("only %d of %d queries answered", answered, sent)
+		}
+		if dialErr != "" {
+			out = dialErr
 		}
 		if m := atomic.LoadInt64(&misrouted); m > 0 {
 			out = fmt.Sprintf("misrouted=%d requests reached an endpoint with another request's host or path", m)
